@@ -50,6 +50,27 @@ class MapV:
         return f"MapV({self.value})"
 
 
+class Rec:
+    """An instance of a value class of the repository (NamedTuple / dataclass): named fields."""
+
+    def __init__(self, cls: tuple, fields: dict) -> None:
+        self.cls = cls
+        self.fields = fields
+
+    def __repr__(self) -> str:
+        return f"{self.cls[1]}(" + ", ".join(f"{k}={v!r}" for k, v in self.fields.items()) + ")"
+
+
+class ClsRef:
+    """A value class itself (the `cls` of a classmethod)."""
+
+    def __init__(self, cls: tuple) -> None:
+        self.cls = cls
+
+    def __repr__(self) -> str:
+        return f"<class {self.cls[1]}>"
+
+
 @dataclass
 class Phi:
     test: str
@@ -211,6 +232,8 @@ class Interp:
     def _join(self, test: str, a, b, cond=None):
         if isinstance(a, Tup) and isinstance(b, Tup) and len(a.items) == len(b.items):
             return Tup([self._join(test, x, y, cond) for x, y in zip(a.items, b.items)])
+        if isinstance(a, Rec) and isinstance(b, Rec) and a.cls == b.cls:
+            return Rec(a.cls, {k: self._join(test, a.fields[k], b.fields[k], cond) for k in a.fields})
         if _same(a, b):
             return a
         if self.dom.is_value(a) and self.dom.is_value(b):
@@ -407,6 +430,22 @@ class Interp:
                     return "fall"
                 fr.env[tname] = Ref(f"item({_path(itv) if isinstance(itv, Ref) else unparse(it)})")
                 fr.loopvars.add(tname)
+        elif isinstance(st.target, ast.Tuple) and isinstance(it, (ast.Tuple, ast.List)) and it.elts and all(isinstance(e, (ast.Tuple, ast.List)) and len(e.elts) == len(st.target.elts) for e in it.elts):
+            # table-driven loop over a literal tuple of tuples: the body once per row
+            import copy
+
+            from .program import _Subst
+
+            for row in it.elts:
+                self.assign(st.target, Tup([self.eval(x, fr) for x in row.elts]), fr, st)
+                # literal columns (variable names) are written into the body, so that `vars[name]` is the
+                # constant-key access it would be in the unrolled code
+                consts = {t.id: x for t, x in zip(st.target.elts, row.elts) if isinstance(t, ast.Name) and isinstance(x, ast.Constant)}
+                body = [ast.fix_missing_locations(_Subst(consts).visit(copy.deepcopy(b))) for b in st.body] if consts else st.body
+                status = self.block(body, fr)
+                if status in ("return", "raise"):
+                    return status
+            return "fall"
         elif isinstance(st.target, ast.Tuple):
             for e in st.target.elts:
                 if isinstance(e, ast.Name):
@@ -491,6 +530,8 @@ class Interp:
                 self.objenv[fr.objalias[target.id]] = v
             return
         if isinstance(target, (ast.Tuple, ast.List)):
+            if isinstance(v, Rec):
+                v = Tup(list(v.fields.values()))
             if isinstance(v, Tup) and len(v.items) == len(target.elts):
                 for t, x in zip(target.elts, v.items):
                     self.assign(t, x, fr, st)
@@ -750,6 +791,16 @@ class Interp:
                 return self.objenv[path]
             return Ref(path)
         base = self.eval(node.value, fr)
+        if isinstance(base, Rec):
+            if node.attr in base.fields:
+                return base.fields[node.attr]
+            prop = self.prog.modules[base.cls[0]].functions.get(f"{base.cls[1]}.{node.attr}")
+            if prop is not None and any(unparse(d) in ("property", "functools.cached_property", "cached_property") for d in prop.node.decorator_list):
+                if fr.depth >= self.max_depth + 2:
+                    return Ref(f"call:{prop.qual}")
+                result, _ = self.run(prop, {"self": base}, None, depth=fr.depth + 1)
+                return result
+            raise Unsupported(f"{fr.fi.loc(node)}: {base.cls[1]} has no field {node.attr}")
         if self.dom.is_value(base) or isinstance(base, Phi):
             r = self._dom_call("." + node.attr, [base], {}, node)
             if r is not NotImplemented:
@@ -843,6 +894,9 @@ class Interp:
             if r is not NotImplemented:
                 return r
         fname = unparse(node.func)
+        r = self._record_call(node, fr)
+        if r is not NotImplemented:
+            return r
         # resolution to a repository function
         targets = []
         try:
@@ -891,6 +945,92 @@ class Interp:
         if fname.split(".")[0] not in ("logger", "logging", "print"):
             self.unresolved_calls.append(f"{fr.fi.qual}: {short(node, 70)}")
         return Ref(f"call:{short(node, 60)}")
+
+    def _record_call(self, node: ast.Call, fr: Frame):
+        """Value classes of the repository: construction, classmethods / staticmethods called on the
+        class, methods called on an instance, _replace. NotImplemented when the call is none of these."""
+        f = node.func
+        cls = None
+        if isinstance(f, ast.Name):
+            v = fr.env.get(f.id)
+            if isinstance(v, ClsRef):
+                cls = v.cls
+            elif f.id not in fr.env:
+                cls = self.prog.record_class_of(fr.fi, f.id)
+            if cls is None:
+                return NotImplemented
+            fields = self.prog.record_fields(*cls)
+            if any(isinstance(a, ast.Starred) for a in node.args) or any(k.arg is None for k in node.keywords):
+                return NotImplemented
+            vals: dict = {}
+            for (name, _d), a in zip(fields, node.args):
+                vals[name] = self.eval(a, fr)
+            for k in node.keywords:
+                vals[k.arg] = self.eval(k.value, fr)
+            for name, d in fields:
+                if name not in vals:
+                    if d is None:
+                        raise Unsupported(f"{fr.fi.loc(node)}: field {name} of {cls[1]} not given")
+                    vals[name] = self._const_default(d)
+            return Rec(cls, {name: vals[name] for name, _ in fields})
+        if not isinstance(f, ast.Attribute):
+            return NotImplemented
+        recv = None
+        if isinstance(f.value, ast.Name):
+            v = fr.env.get(f.value.id)
+            if isinstance(v, ClsRef):
+                cls = v.cls
+            elif isinstance(v, Rec):
+                recv = v
+            elif f.value.id not in fr.env and f.value.id != "self":
+                cls = self.prog.record_class_of(fr.fi, f.value.id)
+        if cls is None and recv is None:
+            if isinstance(f.value, (ast.Call, ast.Attribute, ast.Subscript)):
+                try:
+                    v = self.eval(f.value, fr)
+                except Unsupported:
+                    return NotImplemented
+                if isinstance(v, Rec):
+                    recv = v
+        if cls is None and recv is None:
+            return NotImplemented
+        owner = cls or recv.cls
+        if recv is not None and f.attr == "_replace" and not node.args:
+            new = dict(recv.fields)
+            for k in node.keywords:
+                new[k.arg] = self.eval(k.value, fr)
+            return Rec(recv.cls, new)
+        if recv is not None and f.attr == "_asdict":
+            return NotImplemented
+        callee = self.prog.modules[owner[0]].functions.get(f"{owner[1]}.{f.attr}")
+        if callee is None:
+            return NotImplemented
+        decos = [unparse(d) for d in callee.node.decorator_list]
+        params = list(callee.params)
+        extra: dict = {}
+        if "staticmethod" in decos:
+            pass
+        elif "classmethod" in decos:
+            extra[params[0]] = ClsRef(owner)
+            params = params[1:]
+        else:
+            if recv is None:
+                return NotImplemented
+            extra[params[0]] = recv
+            params = params[1:]
+        if any(isinstance(a, ast.Starred) for a in node.args) or any(k.arg is None for k in node.keywords):
+            return NotImplemented
+        args = dict(extra)
+        for p_, a in zip(params, node.args):
+            args[p_] = self.eval(a, fr)
+        for k in node.keywords:
+            args[k.arg] = self.eval(k.value, fr)
+        self.trace.append((fr.fi.qual, node))
+        try:
+            result, _cfr = self.run(callee, args, None, depth=fr.depth + 1)
+        finally:
+            self.trace.pop()
+        return result
 
     def _dom_call(self, fname, args, kwargs, node):
         """Domain call, distributed over two-armed arguments."""
